@@ -663,6 +663,11 @@ func (c *AttackCtx) encryptOp(root *etree.Element, op Op) *etree.Element {
 		if err != nil {
 			return root
 		}
+		if nsOf(target) != NSAssertion {
+			// an element merely NAMED Assertion (renamed by an earlier operator) in another namespace:
+			// its ciphertext is an EncryptedAssertion that does not carry a SAML assertion
+			c.NonAsrtE = true
+		}
 		plain = Serialize(det, Layout{})
 		parent, idx = target.Parent(), target.Index()
 		parent.RemoveChild(target)
